@@ -541,8 +541,53 @@ def check_forms(res):
     return msgs
 
 
+def check_fde_history(res, maxlen):
+    """K2 over ONE array object handed to fdepsd repeatedly while the caller changes its contents in place between
+    calls (x *= 4, x[:] = x[::-1], x += ramp): after EVERY sequence of up to `maxlen` in-place changes and EVERY
+    interleaved option change the result equals the result for a fresh array object holding the same values (no
+    state keyed on object identity may survive a change of the data)"""
+    from pyyeti import fdepsd
+
+    msgs = []
+    sig0 = fde_signals()["short"].copy()
+    ramp = np.linspace(-0.5, 0.5, len(sig0))
+    muts = {"x*=4": lambda x: x.__imul__(4.0), "reverse": lambda x: x.__setitem__(slice(None), x[::-1].copy()), "x+=ramp": lambda x: x.__iadd__(ramp)}
+    optsets = [dict(resp="absacce", rolloff="lanczos", hpfilter=None, winends="auto"), dict(resp="pvelo", rolloff="none", hpfilter=5.0, winends=None)]
+    freq = [40.0, 111.0]
+
+    def call(x, o):
+        r = fdepsd.fdepsd(x, 1000.0, freq, 10, nbins=4, T0=30.0, parallel="no", **o)
+        return [np.asarray(getattr(r, nm).values if hasattr(getattr(r, nm), "values") else getattr(r, nm), float) for nm in ("psd", "srs", "var", "peakamp", "binamps", "count", "di_sig")]
+
+    for n in range(1, maxlen + 1):
+        for seq in itertools.product(list(muts), repeat=n):
+            for oseq in itertools.product(range(len(optsets)), repeat=n + 1):
+                if n > 1 and len(set(oseq)) > 1 and oseq[0] != oseq[-1]:
+                    continue  # option changes: keep the histories that come back to the first option set
+                x = sig0.copy()
+                call(x, optsets[oseq[0]])
+                res.traces += 1
+                res.states += 1
+                for step, mname in enumerate(seq):
+                    muts[mname](x)
+                    o = optsets[oseq[step + 1]]
+                    res.states += 1
+                    got = call(x, o)
+                    want = call(x.copy(), o)
+                    res.transitions += 1
+                    if not all(a.shape == b.shape and np.array_equal(a, b, equal_nan=True) for a, b in zip(got, want)):
+                        case = dict(part="fde_history", seq=list(seq), opts=list(oseq), step=step)
+                        msgs.append((case, "fdepsd on an array changed in place (history %s, option sets %s): call %d returns a different result than the same call on a "
+                                     "fresh array holding the same values" % (list(seq), list(oseq), step + 2), "fde-history"))
+                        break
+                if len(msgs) > 4:
+                    return msgs
+    res.ev("fde_history", n=0)
+    return msgs
+
+
 def shards(tier, seed):
-    out = [dict(part="forms")]
+    out = [dict(part="forms"), dict(part="fde_history", maxlen=2 if tier == "quick" else 3)]
     Lmax = 5 if tier == "quick" else 7
     for alpha in ("int", "eps"):
         for tol in (1e-6, 0.3):
@@ -578,6 +623,11 @@ def _run(sh, res):
     if part == "binify":
         m = table_msgs(np.array(sh["cyc"]), res, sh.get("tag", ""))
         return [x for x in m if all(jsame(x[0].get(k), sh.get(k)) for k in ("amp", "mean", "right", "cb"))]
+    if part == "fde_history":
+        m = check_fde_history(res, sh.get("maxlen", 2))
+        if "seq" in sh:
+            m = [x for x in m if jsame(x[0].get("seq"), sh["seq"]) and jsame(x[0].get("opts"), sh["opts"])]
+        return m
     if part == "forms":
         m = check_forms(res)
         if "fn" in sh:
